@@ -7,6 +7,7 @@ line per op; same protocol as harness/c16*.cpp.  Imports Model/ and Gen/ only.
 -/
 import SharkVerif.Gen.McTables
 import SharkVerif.Model.McSmo
+import SharkVerif.Model.McLinear
 open SharkVerif.Mc SharkVerif.Gen
 
 def fbits (x : Float) : String := toString x.toBits.toNat
@@ -149,9 +150,53 @@ def sameState (f : McBox Float) (q : McBox Rat) : Bool :=
   (List.range f.n).all (fun i => (f.ex i).index == (q.ex i).index && (f.ex i).active == (q.ex i).active &&
     (List.range f.P).all fun p => (f.ex i).var p == (q.ex i).var p && (f.ex i).avar p == (q.ex i).avar p)
 
+/-- data set sent by `data n d k coords labels` (coordinates with offset 8) -/
+structure DataSet where
+  n : Nat := 0
+  d : Nat := 0
+  k : Nat := 0
+  xs : Array Int := #[]
+  ys : Array Nat := #[]
+
+structure LinPair where
+  df : LinData Float
+  dq : LinData Rat
+  sf : LinState Float
+  sq : LinState Rat
+
 structure St where
   bf : Option (McBox Float) := none
   bq : Option (McBox Rat) := none
+  ds : DataSet := {}
+  lin : Option LinPair := none
+
+section
+variable {α : Type} [Add α] [Sub α] [Mul α] [Div α] [Neg α] [NatCast α] [OfScientific α]
+  [LT α] [LE α] [DecidableLT α] [DecidableLE α] [BEq α] [Scal α]
+
+def mkLinData (ds : DataSet) (bound reg offset : α) : LinData α :=
+  let ax := mkArr (ds.n * ds.d) fun t => (Scal.ofIntShift (ds.xs.getD t 0) 0 : α)
+  let x : Nat → Nat → α := fun i k => arrFn ax (0.0 : α) (i * ds.d + k)
+  -- m_xSquared(i) = norm_sqr(x_i): left-to-right sum of squares
+  let asq := mkArr ds.n fun i => (List.range ds.d).foldl (fun acc k => acc + x i k * x i k) (0.0 : α)
+  let ay := mkArr ds.n fun i => if ds.ys.getD i 0 > 0 then (1.0 : α) else (-(1.0 : α))
+  { n := ds.n, d := ds.d, x := x, ysign := arrFn ay (0.0 : α), xsq := arrFn asq (0.0 : α),
+    bound := bound, reg := reg, offset := offset }
+
+def normLin (n d : Nat) (s : LinState α) : LinState α :=
+  let aa := mkArr n s.alpha
+  let aw := mkArr d s.w
+  { alpha := arrFn aa (0.0 : α), w := arrFn aw (0.0 : α) }
+
+def dumpLin (n d : Nat) (s : LinState α) : String :=
+  let a := ",".intercalate ((List.range n).map fun i => Scal.render (s.alpha i))
+  let w := ",".intercalate ((List.range d).map fun k => Scal.render (s.w k))
+  s!"A=[{a}] W=[{w}]"
+end
+
+def sameLin (n d : Nat) (f : LinState Float) (q : LinState Rat) : Bool :=
+  (List.range n).all (fun i => floatToRat (f.alpha i) == some (q.alpha i)) &&
+  (List.range d).all (fun k => floatToRat (f.w k) == some (q.w k))
 
 def parseInts (l : List String) : Option (List Int) := l.mapM String.toInt?
 
@@ -166,6 +211,34 @@ def step (st : St) (line : String) : St × String :=
   | ["tablesq", name, c] =>
     match c.toNat?, (McTables.table name (c.toNat?.getD 0) : Option (Sparse Rat)) with
     | some _, some t => (st, dumpSparse qstr t)
+    | _, _ => (st, "bad-op")
+  | "data" :: rest =>
+    match rest.mapM String.toNat? with
+    | some (n :: d :: k :: vals) =>
+      if vals.length != n * d + n then (st, "bad-op") else
+      let xs := ((vals.take (n * d)).map fun (v : Nat) => (v : Int) - 8).toArray
+      ({ st with ds := { n := n, d := d, k := k, xs := xs, ys := (vals.drop (n * d)).toArray }, lin := none }, s!"data n={n} d={d}")
+    | _ => (st, "bad-op")
+  | "probes" :: m :: _ => (st, s!"probes m={m}")
+  | "lnew" :: rest =>
+    match parseInts rest with
+    | some [bn, bs, rn, rs, on, os, _batch] =>
+      if st.ds.n = 0 || st.ds.k != 2 then (st, "bad-op") else
+      let df : LinData Float := mkLinData st.ds (Scal.ofIntShift bn bs.toNat) (Scal.ofIntShift rn rs.toNat) (Scal.ofIntShift on os.toNat)
+      let dq : LinData Rat := mkLinData st.ds (Scal.ofIntShift bn bs.toNat) (Scal.ofIntShift rn rs.toNat) (Scal.ofIntShift on os.toNat)
+      let p : LinPair := { df := df, dq := dq, sf := normLin df.n df.d linInit, sq := normLin dq.n dq.d linInit }
+      ({ st with lin := some p }, dumpLin df.n df.d p.sf ++ (if sameLin df.n df.d p.sf p.sq then " #rat=ok" else " #rat=diff"))
+    | _ => (st, "bad-op")
+  | "lsweep" :: rest =>
+    match parseInts rest, st.lin with
+    | some (_seed :: sched), some p =>
+      let sc := sched.map Int.toNat
+      if sc.any (fun i => i ≥ p.df.n) then (st, "bad-op") else
+      -- normalise after every step so that evaluation stays cheap
+      let sf := sc.foldl (fun s i => normLin p.df.n p.df.d (linStep p.df s i).1) p.sf
+      let sq := sc.foldl (fun s i => normLin p.dq.n p.dq.d (linStep p.dq s i).1) p.sq
+      ({ st with lin := some { p with sf := sf, sq := sq } },
+       dumpLin p.df.n p.df.d sf ++ (if sameLin p.df.n p.df.d sf sq then " #rat=ok" else " #rat=diff"))
     | _, _ => (st, "bad-op")
   | ["dispatch", k, f] =>
     -- decision logic generated from CSvmTrainer::train
